@@ -46,7 +46,7 @@ func (h *HookCtl) Install() { disk.VerifSetHook(h.cb) }
 
 // Callback is the hook function itself (for chaining behind another callback).
 func (h *HookCtl) Callback(point, key string, n int64) { h.cb(point, key, n) }
-func (h *HookCtl) Remove()  { disk.VerifSetHook(nil) }
+func (h *HookCtl) Remove()                             { disk.VerifSetHook(nil) }
 
 func (h *HookCtl) cb(point, key string, n int64) {
 	h.mu.Lock()
